@@ -297,6 +297,14 @@ def run(ctx):
             meta.append(a)
         except Exception as ex:
             ctx.violation('C01:%s:%s:exception' % (a['cls'], a['method'] or 'default'), 'an admissible configuration raised %s: %s' % (type(ex).__name__, str(ex)[:140]), dict(descriptor=a))
+    counts = {}
+    for e in ev:
+        for c in e['claims']:
+            counts[c['c']] = counts.get(c['c'], 0) + 1
+    ctx.extra['claims_decided_by_kind'] = counts          # vacuity guard: every claim kind of Trace_Manifold must occur
+    missing = {'unit', 'ball', 'simplex', 'interval', 'positive', 'hermitian', 'trace1', 'gram', 'isometry', 'unitary', 'det1', 'kraus', 'tp', 'sepdecomp', 'symB', 'trace0', 'norm1', 'same', 'real', 'realv'} - set(counts)
+    if missing:
+        raise core.MachineryError('vacuous run: claim kinds never generated: %s' % sorted(missing))
     acc, rej, results = tlc.validate_events('manifold/Trace_Manifold.tla', 'manifold/Trace_Manifold.cfg', ev, shards=16)
     for r in results:
         ctx.states += r.distinct
